@@ -15,17 +15,33 @@ A case:
             {'t': 'none'} | {'t': 'str', 'v': ..} | {'t': 'int', 'v': ..}
   cl, cc    hex: the bytes os.urandom hands to that side (padded/truncated to the
             length the code asks for; the length asked for is reported)
-  script    list of hex: the messages the scripted peer sends, in order
+  script    list of hex: the messages the scripted peer sends, in order; an entry
+            {'fail': '<exception class>'} instead of a message makes the honest side's
+            recv_bytes call at that position raise that error (channel fault)
+  sfaults   {'L': [null, 'BrokenPipeError', ...], 'C': [...]}: channel faults on the
+            send direction, per side the fate of its send_bytes calls in order: null =
+            handed to the real connection, a class name = the call raises that error
+            and nothing is written
+  shut_rd   j (scripted-peer cases on the real socketpair): the peer shuts down the
+            READ side of its socket (socket.shutdown(SHUT_RD)) just before the honest
+            side's j-th send_bytes call, and keeps its write side open: that call and
+            every later one fail in the kernel (EPIPE) while everything the peer wrote
+            can still be read
 
 Both ends are wrapped in a recorder that logs every send_bytes and detects
 starvation deterministically (no time-outs): a side is starved when nothing is
 in flight towards it and the peer has finished or is itself blocked with nothing
 in flight.  Result per side: {'out': 'returned' | <exception class name> | 'starved',
-'sent': [hex...]}.  The digest table (real hmac) for the model is returned too.
+'sent': [hex...] (the messages whose send_bytes call succeeded), 'sres': the fate of
+every send_bytes call in order (null | exception class name -- injected or raised by the
+real connection), 'trace': every call in order, ['s', hex, err] / ['r', hex|null, err]}.
+The digest table (real hmac) for the model is returned too.
 """
+import errno
 import hmac
 import json
 import os
+import socket
 import sys
 import tempfile
 import threading
@@ -57,6 +73,23 @@ class Starved(Exception):
     pass
 
 
+class InjectedEOF(EOFError):
+    """an EOFError raised by the channel (scripted), as opposed to the end of file the
+    harness itself provokes when it closes a starved side's peer"""
+
+
+def injected(name):
+    if name == 'BrokenPipeError':
+        return BrokenPipeError(errno.EPIPE, 'Broken pipe (injected)')
+    if name == 'ConnectionResetError':
+        return ConnectionResetError(errno.ECONNRESET, 'Connection reset by peer (injected)')
+    if name == 'OSError':
+        return OSError(errno.EIO, 'Input/output error (injected)')
+    if name == 'EOFError':
+        return InjectedEOF('injected')
+    raise ValueError('unknown fault %r' % (name,))
+
+
 class Shared:
     def __init__(self):
         self.lock = threading.Lock()
@@ -66,6 +99,14 @@ class Shared:
         self.inwait = {'L': False, 'C': False}
         self.done = {'L': False, 'C': False}
         self.log = {'L': [], 'C': []}
+        # channel faults: scripted fate of each send call / each recv call per side, a
+        # hook run just before a given send call, and what was observed
+        self.sfaults = {'L': [], 'C': []}
+        self.rplan = {'L': [], 'C': []}
+        self.before_send = {'L': {}, 'C': {}}
+        self.rcalls = {'L': 0, 'C': 0}
+        self.sres = {'L': [], 'C': []}
+        self.trace = {'L': [], 'C': []}
 
     def finish(self, side):
         with self.cond:
@@ -79,17 +120,38 @@ class RecordingConn:
         self._peer = 'C' if side == 'L' else 'L'
 
     def send_bytes(self, buf, *a):
-        sh = self._sh
+        sh, me = self._sh, self._side
         with sh.cond:
-            self._real.send_bytes(buf, *a)
-            sh.log[self._side].append(bytes(buf))
-            sh.sent[self._side] += 1
+            idx = len(sh.sres[me])
+            plan = sh.sfaults[me]
+            fault = plan[idx] if idx < len(plan) else None
+            try:
+                if fault:
+                    raise injected(fault)
+                hook = sh.before_send[me].get(idx)
+                if hook:
+                    hook()
+                self._real.send_bytes(buf, *a)
+            except BaseException as exc:       # noqa: the call failed, nothing was delivered
+                sh.sres[me].append(type(exc).__name__)
+                sh.trace[me].append(['s', bytes(buf).hex(), type(exc).__name__])
+                raise
+            sh.sres[me].append(None)
+            sh.trace[me].append(['s', bytes(buf).hex(), None])
+            sh.log[me].append(bytes(buf))
+            sh.sent[me] += 1
             sh.cond.notify_all()
 
     def recv_bytes(self, maxlength=None):
         sh, me, peer = self._sh, self._side, self._peer
         deadline = time.monotonic() + 30
         with sh.cond:
+            idx = sh.rcalls[me]
+            sh.rcalls[me] += 1
+            plan = sh.rplan[me]
+            if idx < len(plan) and plan[idx]:
+                sh.trace[me].append(['r', None, plan[idx]])
+                raise injected(plan[idx])
             while True:
                 if sh.sent[peer] - sh.recvd[me] > 0:
                     sh.inwait[me] = False
@@ -102,7 +164,13 @@ class RecordingConn:
                 if not sh.cond.wait(timeout=max(0.0, deadline - time.monotonic())) \
                         and time.monotonic() >= deadline:
                     raise Starved('harness timeout')
-        return self._real.recv_bytes(maxlength)
+        try:
+            data = self._real.recv_bytes(maxlength)
+        except BaseException as exc:           # noqa
+            sh.trace[me].append(['r', None, type(exc).__name__])
+            raise
+        sh.trace[me].append(['r', bytes(data).hex(), None])
+        return data
 
     def __getattr__(self, name):
         return getattr(self._real, name)
@@ -155,6 +223,8 @@ def outcome(fn):
         return 'returned'
     except Starved as exc:
         return 'starved' if not exc.args else 'harness-timeout'
+    except InjectedEOF:
+        return 'EOFError'
     except EOFError:
         return 'starved'
     except BaseException as exc:        # noqa
@@ -179,7 +249,9 @@ def run_case(c, digestmod):
     transport = c.get('transport', 'pipe')
     cl = bytes.fromhex(c.get('cl', ''))
     cc = bytes.fromhex(c.get('cc', ''))
-    script = [bytes.fromhex(m) for m in c.get('script', [])]
+    script = [m if isinstance(m, dict) else bytes.fromhex(m) for m in c.get('script', [])]
+    for side in 'LC':
+        sh.sfaults[side] = list((c.get('sfaults') or {}).get(side) or [])
     cleanup = []
     address = '/verif-c18-fake-address'
     if transport == 'pipe':
@@ -242,10 +314,21 @@ def run_case(c, digestmod):
         else:
             honest, peer = ('L', 'C') if kind == 'peerL' else ('C', 'L')
             peer_end = Ctx.conns[peer]._real
-            for m in script:
+            msgs = [m for m in script if not isinstance(m, dict)]
+            for m in msgs:
                 peer_end.send_bytes(m)
-            sh.sent[peer] = len(script)
+            sh.sent[peer] = len(msgs)
             sh.done[peer] = True
+            sh.rplan[honest] = [m['fail'] if isinstance(m, dict) else None for m in script]
+            if c.get('shut_rd') is not None:
+                def shut_rd():
+                    # the peer stops reading but keeps writing (what it wrote stays readable)
+                    sk = socket.socket(fileno=os.dup(peer_end.fileno()))
+                    try:
+                        sk.shutdown(socket.SHUT_RD)
+                    finally:
+                        sk.close()
+                sh.before_send[honest][int(c['shut_rd'])] = shut_rd
             run_side(honest, sh, res, asked, cl if honest == 'L' else cc,
                      listener_side if honest == 'L' else client_side)
     finally:
@@ -265,7 +348,8 @@ def run_case(c, digestmod):
     def obs(side):
         if side not in res:
             return None
-        return dict(out=res[side], sent=[m.hex() for m in sh.log[side]])
+        return dict(out=res[side], sent=[m.hex() for m in sh.log[side]],
+                    sres=list(sh.sres[side]), trace=list(sh.trace[side]))
 
     def asked_n(side):
         a = asked.get(side, [])
@@ -281,7 +365,8 @@ def run_case(c, digestmod):
             if kb not in keys:
                 keys.append(kb)
     msgs = []
-    for m in [cl, cc] + [s[len(bc.CHALLENGE):] for s in script if s.startswith(bc.CHALLENGE)]:
+    for m in [cl, cc] + [s[len(bc.CHALLENGE):] for s in script
+                         if not isinstance(s, dict) and s.startswith(bc.CHALLENGE)]:
         if m not in msgs:
             msgs.append(m)
     table = [[k.hex(), [[m.hex(), hmac.new(k, m, digestmod).digest().hex()] for m in msgs]] for k in keys]
